@@ -699,6 +699,21 @@ def seq_method(I, o, name, args, kwargs):
             p["len"] = z3.IntVal(0)                   # in place: every alias of the list sees it emptied
             I.wrote(o.oid, "items")
             return None
+        if name in ("min", "max") and not args and not kwargs and p.get("pytype") == "ndarray":
+            # numpy reduction over a 1-D float array (TRUSTED model, A3): the extremum is an element and bounds every element; a NaN
+            # anywhere makes the result NaN; an empty array raises
+            if not I.branch(n > 0):
+                raise PyRaise("ValueError", "zero-size array to reduction operation")
+            tag = "%s#%d#%d" % (name, o.oid, I.version)
+            m = z3.Real(I.fresh_name(name))
+            j = I.idx("arg" + name)
+            clean = forall_index(I, "nonan:" + tag, z3.IntVal(0), n, lambda i: z3.Not(lift_fl(at(i)).nan))
+            I.assume(z3.And(0 <= j, j < n, z3.Implies(clean, m == lift_fl(at(j)).v)))
+            if name == "min":
+                I.assume_pwi(lambda i: z3.Implies(z3.And(clean, 0 <= i, i < n), m <= lift_fl(at(i)).v))
+            else:
+                I.assume_pwi(lambda i: z3.Implies(z3.And(clean, 0 <= i, i < n), m >= lift_fl(at(i)).v))
+            return Fl(m, z3.Not(clean))
         ext = I.registry.get("seqmethod:" + name)
         if ext is not None:
             return ext(I, o, args, kwargs)
